@@ -16,6 +16,8 @@ use crate::schedx::{CaseInfo, Judgement};
 
 #[derive(Clone, Debug)]
 pub struct Case {
+    /// every opener but the first reaches the file through a hard link (another name of the same inode)
+    pub hardlink: bool,
     /// this opener asks for direct_writes (O_DIRECT); a refusal by the file system (EINVAL) is a legitimate answer
     pub direct: Option<usize>,
     /// the length query this opener makes under the lock fails (EIO): its open must report the error
@@ -41,32 +43,35 @@ pub struct Case {
 pub fn cases(tier: Tier) -> Vec<Case> {
     let q = tier == Tier::Quick;
     vec![
-        Case { direct: None, stat_fault: None, grow_plain: None, sync_fault_grow: None, second_fd: false, procs: false, init_fault: None, eintr: false, openers: 2, file_exists: true, bound: if q { 6 } else { 12 } },
-        Case { direct: None, stat_fault: None, grow_plain: None, sync_fault_grow: None, second_fd: false, procs: false, init_fault: None, eintr: false, openers: 2, file_exists: false, bound: if q { 4 } else { 8 } },
-        Case { direct: None, stat_fault: None, grow_plain: None, sync_fault_grow: None, second_fd: false, procs: false, init_fault: None, eintr: false, openers: 3, file_exists: true, bound: if q { 2 } else { 3 } },
-        Case { direct: None, stat_fault: None, grow_plain: None, sync_fault_grow: None, second_fd: false, procs: false, init_fault: None, eintr: false, openers: 3, file_exists: false, bound: if q { 2 } else { 3 } },
-        Case { direct: None, stat_fault: None, grow_plain: None, sync_fault_grow: None, second_fd: false, procs: false, init_fault: None, eintr: true, openers: 2, file_exists: true, bound: if q { 3 } else { 6 } },
-        Case { direct: None, stat_fault: None, grow_plain: None, sync_fault_grow: None, second_fd: false, procs: false, init_fault: None, eintr: true, openers: 3, file_exists: false, bound: if q { 1 } else { 2 } },
-        Case { direct: None, stat_fault: None, grow_plain: None, sync_fault_grow: None, second_fd: false, procs: false, init_fault: Some(0), eintr: false, openers: 3, file_exists: false, bound: if q { 2 } else { 3 } },
-        Case { direct: None, stat_fault: None, grow_plain: None, sync_fault_grow: None, second_fd: false, procs: false, init_fault: Some(1), eintr: false, openers: 3, file_exists: false, bound: if q { 1 } else { 2 } },
-        Case { direct: None, stat_fault: None, grow_plain: None, sync_fault_grow: Some(0), second_fd: false, procs: false, init_fault: None, eintr: false, openers: 2, file_exists: true, bound: if q { 2 } else { 4 } },
-        Case { direct: None, stat_fault: None, grow_plain: None, sync_fault_grow: Some(0), second_fd: false, procs: true, init_fault: None, eintr: false, openers: 2, file_exists: true, bound: if q { 3 } else { 6 } },
+        Case { hardlink: false, direct: None, stat_fault: None, grow_plain: None, sync_fault_grow: None, second_fd: false, procs: false, init_fault: None, eintr: false, openers: 2, file_exists: true, bound: if q { 6 } else { 12 } },
+        Case { hardlink: false, direct: None, stat_fault: None, grow_plain: None, sync_fault_grow: None, second_fd: false, procs: false, init_fault: None, eintr: false, openers: 2, file_exists: false, bound: if q { 4 } else { 8 } },
+        Case { hardlink: false, direct: None, stat_fault: None, grow_plain: None, sync_fault_grow: None, second_fd: false, procs: false, init_fault: None, eintr: false, openers: 3, file_exists: true, bound: if q { 2 } else { 3 } },
+        Case { hardlink: false, direct: None, stat_fault: None, grow_plain: None, sync_fault_grow: None, second_fd: false, procs: false, init_fault: None, eintr: false, openers: 3, file_exists: false, bound: if q { 2 } else { 3 } },
+        Case { hardlink: false, direct: None, stat_fault: None, grow_plain: None, sync_fault_grow: None, second_fd: false, procs: false, init_fault: None, eintr: true, openers: 2, file_exists: true, bound: if q { 3 } else { 6 } },
+        Case { hardlink: false, direct: None, stat_fault: None, grow_plain: None, sync_fault_grow: None, second_fd: false, procs: false, init_fault: None, eintr: true, openers: 3, file_exists: false, bound: if q { 1 } else { 2 } },
+        Case { hardlink: false, direct: None, stat_fault: None, grow_plain: None, sync_fault_grow: None, second_fd: false, procs: false, init_fault: Some(0), eintr: false, openers: 3, file_exists: false, bound: if q { 2 } else { 3 } },
+        Case { hardlink: false, direct: None, stat_fault: None, grow_plain: None, sync_fault_grow: None, second_fd: false, procs: false, init_fault: Some(1), eintr: false, openers: 3, file_exists: false, bound: if q { 1 } else { 2 } },
+        Case { hardlink: false, direct: None, stat_fault: None, grow_plain: None, sync_fault_grow: Some(0), second_fd: false, procs: false, init_fault: None, eintr: false, openers: 2, file_exists: true, bound: if q { 2 } else { 4 } },
+        Case { hardlink: false, direct: None, stat_fault: None, grow_plain: None, sync_fault_grow: Some(0), second_fd: false, procs: true, init_fault: None, eintr: false, openers: 2, file_exists: true, bound: if q { 3 } else { 6 } },
         // the holder grows the file while the others wait (every second opener maps with populate)
-        Case { direct: None, stat_fault: None, grow_plain: Some(0), sync_fault_grow: None, second_fd: false, procs: false, init_fault: None, eintr: false, openers: 2, file_exists: true, bound: if q { 2 } else { 4 } },
-        Case { direct: None, stat_fault: None, grow_plain: Some(0), sync_fault_grow: None, second_fd: false, procs: true, init_fault: None, eintr: false, openers: 2, file_exists: true, bound: if q { 3 } else { 6 } },
+        Case { hardlink: false, direct: None, stat_fault: None, grow_plain: Some(0), sync_fault_grow: None, second_fd: false, procs: false, init_fault: None, eintr: false, openers: 2, file_exists: true, bound: if q { 2 } else { 4 } },
+        Case { hardlink: false, direct: None, stat_fault: None, grow_plain: Some(0), sync_fault_grow: None, second_fd: false, procs: true, init_fault: None, eintr: false, openers: 2, file_exists: true, bound: if q { 3 } else { 6 } },
         // the waiting opener's length query fails
-        Case { direct: None, stat_fault: Some(1), grow_plain: None, sync_fault_grow: None, second_fd: false, procs: false, init_fault: None, eintr: false, openers: 2, file_exists: true, bound: if q { 2 } else { 4 } },
-        Case { direct: None, stat_fault: Some(1), grow_plain: None, sync_fault_grow: None, second_fd: false, procs: true, init_fault: None, eintr: false, openers: 2, file_exists: true, bound: if q { 3 } else { 6 } },
+        Case { hardlink: false, direct: None, stat_fault: Some(1), grow_plain: None, sync_fault_grow: None, second_fd: false, procs: false, init_fault: None, eintr: false, openers: 2, file_exists: true, bound: if q { 2 } else { 4 } },
+        Case { hardlink: false, direct: None, stat_fault: Some(1), grow_plain: None, sync_fault_grow: None, second_fd: false, procs: true, init_fault: None, eintr: false, openers: 2, file_exists: true, bound: if q { 3 } else { 6 } },
+        // the second opener uses another name (hard link) of the same file
+        Case { hardlink: true, direct: None, stat_fault: None, grow_plain: None, sync_fault_grow: None, second_fd: false, procs: false, init_fault: None, eintr: false, openers: 2, file_exists: true, bound: if q { 3 } else { 6 } },
+        Case { hardlink: true, direct: None, stat_fault: None, grow_plain: None, sync_fault_grow: None, second_fd: false, procs: true, init_fault: None, eintr: false, openers: 2, file_exists: true, bound: if q { 3 } else { 6 } },
         // an opener that asks for direct writes, on a fresh and on an existing file
-        Case { direct: Some(0), stat_fault: None, grow_plain: None, sync_fault_grow: None, second_fd: false, procs: false, init_fault: None, eintr: false, openers: 2, file_exists: false, bound: if q { 2 } else { 4 } },
-        Case { direct: Some(0), stat_fault: None, grow_plain: None, sync_fault_grow: None, second_fd: false, procs: true, init_fault: None, eintr: false, openers: 2, file_exists: false, bound: if q { 3 } else { 6 } },
-        Case { direct: Some(1), stat_fault: None, grow_plain: None, sync_fault_grow: None, second_fd: false, procs: true, init_fault: None, eintr: false, openers: 2, file_exists: true, bound: if q { 2 } else { 4 } },
+        Case { hardlink: false, direct: Some(0), stat_fault: None, grow_plain: None, sync_fault_grow: None, second_fd: false, procs: false, init_fault: None, eintr: false, openers: 2, file_exists: false, bound: if q { 2 } else { 4 } },
+        Case { hardlink: false, direct: Some(0), stat_fault: None, grow_plain: None, sync_fault_grow: None, second_fd: false, procs: true, init_fault: None, eintr: false, openers: 2, file_exists: false, bound: if q { 3 } else { 6 } },
+        Case { hardlink: false, direct: Some(1), stat_fault: None, grow_plain: None, sync_fault_grow: None, second_fd: false, procs: true, init_fault: None, eintr: false, openers: 2, file_exists: true, bound: if q { 2 } else { 4 } },
         // the same bodies as real processes under the kernel's own flock
-        Case { direct: None, stat_fault: None, grow_plain: None, sync_fault_grow: None, second_fd: false, procs: true, init_fault: None, eintr: false, openers: 2, file_exists: true, bound: if q { 4 } else { 12 } },
-        Case { direct: None, stat_fault: None, grow_plain: None, sync_fault_grow: None, second_fd: false, procs: true, init_fault: None, eintr: false, openers: 2, file_exists: false, bound: if q { 4 } else { 8 } },
-        Case { direct: None, stat_fault: None, grow_plain: None, sync_fault_grow: None, second_fd: false, procs: true, init_fault: None, eintr: false, openers: 3, file_exists: false, bound: if q { 2 } else { 3 } },
-        Case { direct: None, stat_fault: None, grow_plain: None, sync_fault_grow: None, second_fd: true, procs: true, init_fault: None, eintr: false, openers: 2, file_exists: true, bound: if q { 3 } else { 6 } },
-        Case { direct: None, stat_fault: None, grow_plain: None, sync_fault_grow: None, second_fd: false, procs: true, init_fault: Some(0), eintr: false, openers: 3, file_exists: false, bound: if q { 1 } else { 2 } },
+        Case { hardlink: false, direct: None, stat_fault: None, grow_plain: None, sync_fault_grow: None, second_fd: false, procs: true, init_fault: None, eintr: false, openers: 2, file_exists: true, bound: if q { 4 } else { 12 } },
+        Case { hardlink: false, direct: None, stat_fault: None, grow_plain: None, sync_fault_grow: None, second_fd: false, procs: true, init_fault: None, eintr: false, openers: 2, file_exists: false, bound: if q { 4 } else { 8 } },
+        Case { hardlink: false, direct: None, stat_fault: None, grow_plain: None, sync_fault_grow: None, second_fd: false, procs: true, init_fault: None, eintr: false, openers: 3, file_exists: false, bound: if q { 2 } else { 3 } },
+        Case { hardlink: false, direct: None, stat_fault: None, grow_plain: None, sync_fault_grow: None, second_fd: true, procs: true, init_fault: None, eintr: false, openers: 2, file_exists: true, bound: if q { 3 } else { 6 } },
+        Case { hardlink: false, direct: None, stat_fault: None, grow_plain: None, sync_fault_grow: None, second_fd: false, procs: true, init_fault: Some(0), eintr: false, openers: 3, file_exists: false, bound: if q { 1 } else { 2 } },
     ]
 }
 
@@ -74,7 +79,7 @@ pub fn case_infos(tier: Tier) -> Vec<CaseInfo> {
     cases(tier)
         .iter()
         .map(|c| CaseInfo {
-            label: format!("{}{}openers-{}{}-c{}", if c.procs { "processes-" } else { "" }, c.openers, if c.file_exists { "existing" } else { "absent" }, if c.direct.is_some() { "-direct-writes" } else if c.grow_plain.is_some() { "-holder-grows-file" } else if c.stat_fault.is_some() { "-lengthqueryfail" } else if c.sync_fault_grow.is_some() { "-syncfail-then-growth" } else if c.second_fd { "-second-descriptor" } else if c.eintr { "-one-EINTR" } else if let Some(i) = c.init_fault { if i == 0 { "-initfail0" } else { "-initfail1" } } else { "" }, c.bound),
+            label: format!("{}{}openers-{}{}-c{}", if c.procs { "processes-" } else { "" }, c.openers, if c.file_exists { "existing" } else { "absent" }, if c.hardlink { "-second-name-hard-link" } else if c.direct.is_some() { "-direct-writes" } else if c.grow_plain.is_some() { "-holder-grows-file" } else if c.stat_fault.is_some() { "-lengthqueryfail" } else if c.sync_fault_grow.is_some() { "-syncfail-then-growth" } else if c.second_fd { "-second-descriptor" } else if c.eintr { "-one-EINTR" } else if let Some(i) = c.init_fault { if i == 0 { "-initfail0" } else { "-initfail1" } } else { "" }, c.bound),
             describe: json!({"openers_are": if c.procs { "child processes released one system call at a time; flock answered by the kernel" } else { "threads; flock modelled by the scheduler" }, "openers": c.openers, "file": if c.file_exists { "exists (empty database, closed)" } else { "does not exist yet" }, "opener_body": "open(path); inside += 1; commit own marker; read all markers; yield; inside -= 1; close", "preemption_bound": c.bound}),
         })
         .collect()
@@ -113,7 +118,7 @@ fn markers(tx: &jammdb::Tx, n: usize) -> Result<Vec<usize>, String> {
 
 pub fn run_one(case: &Case, path: &str, prefix: &[u8], policy: RwPolicy) -> (ExecResult, Vec<Judgement>, String) {
     if case.procs {
-        let pc = crate::c13p::PCase { openers: case.openers, file_exists: case.file_exists, init_fault: case.init_fault, second_fd: case.second_fd, sync_fault_grow: case.sync_fault_grow, stat_fault: case.stat_fault, grow_plain: case.grow_plain, direct: case.direct };
+        let pc = crate::c13p::PCase { openers: case.openers, file_exists: case.file_exists, init_fault: case.init_fault, second_fd: case.second_fd, sync_fault_grow: case.sync_fault_grow, stat_fault: case.stat_fault, grow_plain: case.grow_plain, direct: case.direct, hardlink: case.hardlink };
         return crate::c13p::run_one(&pc, path, prefix);
     }
     let _ = std::fs::remove_file(path);
@@ -122,6 +127,13 @@ pub fn run_one(case: &Case, path: &str, prefix: &[u8], policy: RwPolicy) -> (Exe
         match real::guarded(|| cfg.open(path).map(|_| ())) {
             Ok(Ok(())) => {}
             other => return (ExecResult { points: vec![], deadlock: None, diverged: Some(format!("cannot create base: {:?}", other)), panics: vec![] }, vec![], String::new()),
+        }
+    }
+    let link = format!("{}.link", path);
+    let _ = std::fs::remove_file(&link);
+    if case.hardlink && case.file_exists {
+        if let Err(e) = std::fs::hard_link(path, &link) {
+            return (ExecResult { points: vec![], deadlock: None, diverged: Some(format!("cannot create the hard link: {}", e)), panics: vec![] }, vec![], String::new());
         }
     }
     let inside = Arc::new(AtomicI64::new(0));
@@ -134,7 +146,7 @@ pub fn run_one(case: &Case, path: &str, prefix: &[u8], policy: RwPolicy) -> (Exe
         // every opener asks for a different initial size (only the creator's may matter)
         let direct = case.direct == Some(i);
         let cfg = Cfg { num_pages: 16 * (i + 1), populate: i % 2 == 1, direct, ..cfg.clone() };
-        let path = path.to_string();
+        let path = if case.hardlink && i > 0 { link.clone() } else { path.to_string() };
         let init_fault = case.init_fault == Some(i) || case.stat_fault == Some(i);
         let stat_fault = case.stat_fault == Some(i);
         let grow_plain = case.grow_plain == Some(i);
